@@ -9,6 +9,8 @@ package main
 
 import (
 	"context"
+	"crypto/sha256"
+	"fmt"
 	"sync"
 
 	"github.com/attestantio/go-eth2-client/spec"
@@ -99,4 +101,100 @@ func valueBytes(k int) []byte {
 	return enc
 }
 
-var _ = specqbft.FirstRound
+// ---------------------------------------------------------------- directed production-config scenarios
+
+// scenarioProdLeaderOfAskedRound (mode c06; indirect seeded change X-m05: the production ProposerF closure answers for state.Round
+// instead of the round asked about): instance three-way with the PRODUCTION config. The operator is in round `cur`; it receives a
+// proposal for round cur+1, justified by a quorum of unprepared round-changes, from the leader of round `cur` (wrong: refused by the
+// reference) and then from the leader of round cur+1 (right: accepted by the reference, the operator moves to cur+1 and prepares).
+func scenarioProdLeaderOfAskedRound(n int, h specqbft.Height, cur specqbft.Round, ctrl bool) caseOut {
+	env := getEnv(n)
+	f := &Forge{env: env, h: h}
+	k := cur + 1
+	right, wrong := f.leader(k), f.leader(cur)
+	op := spectypes.OperatorID(1)
+	for op == right || op == wrong {
+		op++
+	}
+	var rcs []*specqbft.SignedMessage
+	cnt := uint64(0)
+	for i := 1; i <= n && cnt < env.q; i++ {
+		if spectypes.OperatorID(i) != op {
+			rcs = append(rcs, f.roundChange(spectypes.OperatorID(i), k, 0, nil, nil))
+			cnt++
+		}
+	}
+	X := valueBytes(9)
+	c := newCaseCfg(env, op, h, [][]byte{badValue}, ctrl, !ctrl, false, true)
+	c.c02 = ctrl && *mode == "c02"
+	c.emit(c.resetLine(), "ok")
+	deliver := func(m *specqbft.SignedMessage) {
+		if ctrl {
+			c.applyCtrlDeliver(decodeMsg(enc(m)))
+		} else {
+			c.applyInstDeliver(enc(m))
+		}
+	}
+	if ctrl {
+		c.applyCtrlStart(h, valueBytes(3))
+		for rd := specqbft.Round(1); rd < cur; rd++ {
+			c.applyCtrlTimeout(h, rd)
+		}
+	} else {
+		c.applyInstStart(valueBytes(3), h)
+		for rd := specqbft.Round(1); rd < cur; rd++ {
+			c.applyInstTimeout()
+		}
+	}
+	deliver(f.proposal(wrong, k, X, rcs, nil))
+	deliver(f.proposal(right, k, X, rcs, nil))
+	root := sha256.Sum256(X)
+	for _, rc := range rcs { // the same operators prepare and commit it: a local decision
+		deliver(f.prepare(rc.Signers[0], k, root))
+	}
+	for _, rc := range rcs {
+		deliver(f.commit(rc.Signers[0], k, root))
+	}
+	return finishCase(c, []string{"case/directed", "config/production-true", fmt.Sprintf("directed/production-leader-of-asked-round-n%d-cur%d-ctrl-%v", n, cur, ctrl)})
+}
+
+// scenarioProdOneSignatureCertificate (mode c02; indirect seeded change X-m04: SignatureVerification off when a message validator is
+// configured): controller from the PRODUCTION wiring. One committee member sends (a) a decided message listing a quorum of signers
+// whose signature is only its own, for the current and for a future height, (b) a proposal "of the leader" signed with its own
+// key, then prepares and commits "of" the others signed with its own key. All must be refused; no decision may be reported.
+func scenarioProdOneSignatureCertificate(n int, h specqbft.Height) caseOut {
+	env := getEnv(n)
+	f := &Forge{env: env, h: h}
+	op := spectypes.OperatorID(1)
+	byz := spectypes.OperatorID(2)
+	c := newCaseCfg(env, op, h, [][]byte{badValue}, true, false, false, true)
+	c.c02 = true
+	c.emit(c.resetLine(), "ok")
+	c.applyCtrlStart(h, valueBytes(3))
+	Y := valueBytes(8)
+	var ids []spectypes.OperatorID
+	for i := 2; uint64(len(ids)) < env.q; i++ {
+		ids = append(ids, spectypes.OperatorID(i))
+	}
+	oneSig := func(m *specqbft.SignedMessage, signers []spectypes.OperatorID) *specqbft.SignedMessage {
+		s := env.sign(byz, &m.Message)
+		s.Signers = signers
+		s.FullData = m.FullData
+		return s
+	}
+	for _, hh := range []specqbft.Height{h, h + 1} {
+		d := f.decided(ids, hh, 1, Y)
+		c.applyCtrlDeliver(decodeMsg(enc(oneSig(d, ids))))
+	}
+	ld := f.leader(1)
+	p := f.proposal(ld, 1, Y, nil, nil)
+	c.applyCtrlDeliver(decodeMsg(enc(oneSig(p, []spectypes.OperatorID{ld}))))
+	root := sha256.Sum256(Y)
+	for _, id := range ids {
+		c.applyCtrlDeliver(decodeMsg(enc(oneSig(f.prepare(id, 1, root), []spectypes.OperatorID{id}))))
+	}
+	for _, id := range ids {
+		c.applyCtrlDeliver(decodeMsg(enc(oneSig(f.commit(id, 1, root), []spectypes.OperatorID{id}))))
+	}
+	return finishCase(c, []string{"case/directed", "config/production-true", fmt.Sprintf("directed/production-one-signature-certificate-n%d", n)})
+}
